@@ -28,7 +28,12 @@ FINISH = dict(
          "are on disk when the hook runs, status text present on failure, next attempt >= 1 s after a failed "
          "one, process alive; challenge / file / post-operation hooks exiting non-zero; (b) 2..6 certificates "
          "sharing one account and endpoint of which a subset fails for ever (the CA rejects their "
-         "identifiers): every healthy certificate is issued. non-trivial = the fault fired.",
+         "identifiers): every healthy certificate is issued. non-trivial = the fault fired. "
+         "(c) py/ext/c07x.py, same judges: random scripts of 2..4 faults over four consecutive attempts (+ failing "
+         "hooks), answers whose body is cut short, a failing newNonce request, an unusable stored certificate / key "
+         "path next to a healthy certificate, an endpoint nobody listens on, certificates failing for ever through "
+         "their own hook / finalize / an invalid authorization / an account that cannot be registered, 1 and 6 "
+         "certificates with none failing.",
 )
 
 BOUND_MS = 30000
@@ -266,9 +271,14 @@ def run(ctx):
     root = os.path.join(vlib.BUILD, "scratch", "c07-%d" % os.getpid())
     shutil.rmtree(root, ignore_errors=True)
     try:
+        # multi-fault scripts, cut bodies, newNonce, unusable stored files, unreachable endpoint, other ways
+        # to fail for ever (py/ext/c07x.py): run in the background, judged after the base parts
+        from ext import c07x
+        hx = c07x.start(ctx, helper, root)
         part_single(ctx, helper, root)
         part_multi(ctx, helper, root)
         part_lock_order(ctx, helper, root)
+        c07x.finish(ctx, hx, helper)
     finally:
         helper.close()
         shutil.rmtree(root, ignore_errors=True)
@@ -289,6 +299,12 @@ def replay(ctx):
     shutil.rmtree(root, ignore_errors=True)
     n0 = len(ctx.violations)
     sc = obj["sc"]
+    if str(obj.get("part", "")).startswith("x:"):
+        from ext import c07x
+        rc = c07x.replay(ctx, obj, helper, root)
+        helper.close()
+        shutil.rmtree(root, ignore_errors=True)
+        return rc
     if "k" in sc:
         ctx.rng.seed(0)
         print("multi-certificate scenario: re-run the check with the same seed")
